@@ -30,7 +30,7 @@ def run(tier, seed, replay):
     seeds = [seed] if tier == "quick" else [seed + i for i in range(5)]
     # both module generations: bindings from the current v2 generator, and from the current root generator
     for gen in ("v2", "root"):
-        binp = lib.go_module(scr, "codec", gen, extra_src=(lambda d: lib.vt_bindings(scr, d)) if gen == "v2" else (lambda d: lib.vt_bindings_root(scr, d)))
+        binp = lib.go_module(scr, "codec", gen, extra_src=(lambda d: lib.vt_bindings(scr, d)) if gen == "v2" else (lambda d: lib.vt_bindings_root(scr, d, with_resources=True)))
         moddir = os.path.dirname(binp)
         for sd in seeds:
             code, out, err, wall = lib.run_bin(binp, ["-mode", "c13", "-in", rf, "-reserved", resf, "-seed", str(sd)], timeout=3000, cwd=moddir)
